@@ -15,6 +15,7 @@
 (*          formats                                                         *)
 (*  define  text, name, value, exc : parse_user_define / -D                 *)
 (*  getter  g, present, text, res, ty, neg, mag, repr : typed getters       *)
+(*  gseq    text, present, calls, outs : several getter calls on ONE object *)
 EXTENDS Config, TLC, Json, IOUtils
 Rows == ndJsonDeserialize(IOEnv.TRACE_FILE)
 
@@ -73,25 +74,22 @@ DefineClauses(r) ==
       \cup (IF r.exc # "" \/ r.name # p.name \/ r.value # p.value THEN {"~div"} ELSE {})
 
 \* ---------------------------------------------------------------- getters
-GetterClauses(r) ==
-   IF ~r.present THEN (IF r.res = "default" THEN {} ELSE {"C20.getter"})
-   ELSE IF r.g \in {"int", "as"} THEN
-        LET p == IntParse(r.text) IN
-        IF p.ok THEN (IF r.res = "value" /\ r.ty = "int" /\ r.neg = p.neg /\ r.mag = p.mag THEN {} ELSE {"C20.getter"})
-        ELSE (IF r.res = "valueerror" THEN {} ELSE {"C20.getter"})
-   ELSE IF r.g = "float" THEN
-        LET p == FloatParse(r.text) IN
-        IF p.ok THEN (IF r.res = "value" /\ r.ty = "float" /\ r.repr = p.repr THEN {} ELSE {"C20.getter"})
-        ELSE (IF r.res = "valueerror" THEN {} ELSE {"C20.getter"})
-   ELSE LET p == BoolParse(r.text) IN
-        IF p.ok THEN (IF r.res = "value" /\ r.ty = "bool" /\ r.mag = (IF p.b THEN 1 ELSE 0) THEN {} ELSE {"C20.getter"})
-        ELSE (IF r.res = "valueerror" THEN {} ELSE {"C20.getter"})
+\* one call: the converted value of the ORIGINAL text, the given default for a missing name, or ValueError
+OneGetter(g, present, text, o) ==
+   IF ~present THEN o.res = "default"
+   ELSE LET w == Outcome(g, text) IN
+        IF w.ok THEN o.res = "value" /\ o.ty = w.ty /\ o.neg = w.neg /\ o.mag = w.mag /\ o.repr = w.repr
+        ELSE o.res = "valueerror"
+GetterClauses(r) == IF OneGetter(r.g, r.present, r.text, r) THEN {} ELSE {"C20.getter"}
+\* a sequence of calls on one object (row: text, present, calls, outs): every call as on the original text
+GseqClauses(r) == IF \A k \in DOMAIN r.calls : OneGetter(r.calls[k], r.present, r.text, r.outs[k]) THEN {} ELSE {"C20.getter"}
 
 Clauses(r) == CASE r.kind = "layer"   -> LayerClauses(r)
                 [] r.kind = "relpath" -> RelpathClauses(r)
                 [] r.kind = "couple"  -> CoupleClauses(r)
                 [] r.kind = "define"  -> DefineClauses(r)
                 [] r.kind = "getter"  -> GetterClauses(r)
+                [] r.kind = "gseq"    -> GseqClauses(r)
 
 Next == /\ i <= Len(Rows)
         /\ \A c \in Clauses(R) : PrintT(<<"VERDICT", R.id, c>>)
